@@ -1,7 +1,7 @@
 (* C09 - proofs about list programs (Device/DListProg.v): the single-owner invariant and the
    simulation of the CPython reference by the firmware inside the guard. *)
-From Coq Require Import ZArith List Bool Arith Lia.
-From RV Require Import Device.DList Device.DListProg Proofs.DListP.
+From Coq Require Import ZArith List Bool Arith Lia Permutation.
+From RV Require Import Device.DList Device.DListProg Proofs.DListP Proofs.DTupleP.
 Import ListNotations.
 
 (* ------------------------------------------------------------------ generic list facts *)
@@ -255,11 +255,94 @@ Definition post_ok (st : fstate) (r : res (fstate * list Z)) : Prop :=
   | Unsafe k => k = OutOfBounds
   end.
 
+(* ------------------------------------------------------------------ tuple assignment of a permutation *)
+Lemma tuple_ok_spec : forall decl xs rs, tuple_ok decl xs rs = true ->
+  exists ys, rhs_vars rs = Some ys /\ length xs = length ys /\ NoDup xs /\ NoDup ys /\
+             incl ys xs /\ incl xs decl.
+Proof.
+  intros decl xs rs H. unfold tuple_ok in H. destruct (rhs_vars rs) as [ys|]; try discriminate.
+  repeat (apply andb_true_iff in H; destruct H as [H ?]).
+  exists ys. split; auto. apply Nat.eqb_eq in H.
+  repeat split; auto using nodupb_NoDup, forallb_mem_incl.
+Qed.
+
+Lemma owned_vals : forall e, owned e = flat_map optl (map snd e).
+Proof. induction e as [|x r IH]; simpl; auto. unfold owned in *. simpl. now rewrite IH. Qed.
+
+Lemma sum_sizes_vals : forall e, sum_sizes e = list_sum (map size (map snd e)).
+Proof. induction e as [|x r IH]; simpl; auto. Qed.
+
+Lemma perm_wf_env : forall h g g', map fst g' = map fst g -> Permutation (map snd g') (map snd g) ->
+  wf_env h g -> wf_env h g' /\ length (owned g') = length (owned g) /\ sum_sizes g' = sum_sizes g.
+Proof.
+  intros h g g' N P (Hn & Ho & Ha).
+  assert (PO : Permutation (owned g') (owned g)) by (rewrite !owned_vals; now apply Permutation_flat_map).
+  split; [split; [|split]|split].
+  - now rewrite N.
+  - eapply Permutation_NoDup; [apply Permutation_sym; exact PO | exact Ho].
+  - apply (Forall_map snd (wf_lval h)). eapply Permutation_Forall; [apply Permutation_sym; exact P|].
+    now apply (Forall_map snd (wf_lval h)).
+  - now apply Permutation_length.
+  - rewrite !sum_sizes_vals. apply Permutation_list_sum. now apply Permutation_map.
+Qed.
+
+Lemma f_rhs_vars : forall st h rs ys, rhs_vars rs = Some ys ->
+  f_rhs st h rs = Safe (h, map (f_lookup st) ys).
+Proof.
+  intros st h. induction rs as [|[y|items] r IH]; intros ys H; simpl in *; try discriminate.
+  - now injection H as <-.
+  - destruct (rhs_vars r) as [ys'|]; try discriminate. injection H as <-.
+    rewrite (IH ys' eq_refl). reflexivity.
+Qed.
+
+Lemma lookup_getd : forall st y, f_loc st = [] -> f_lookup st y = getd null_list (f_glob st) y.
+Proof. intros st y Hl. unfold f_lookup, getd. rewrite Hl. reflexivity. Qed.
+
+Lemma f_tuple_store_glob : forall in_loop xs ts h g,
+  (forall x, In x xs -> existsb (Z.eqb x) (map fst g) = true) ->
+  f_tuple_store in_loop (mkf h g []) xs ts = mkf h (tstore g xs ts) [].
+Proof.
+  intros in_loop. induction xs as [|x xr IH]; intros [|t tr] h g Hd; simpl; auto.
+  assert (Hx : has x g = true).
+  { unfold has. destruct (proj1 (assoc_names _ x g) (Hd x (or_introl eq_refl))) as (a & ->). reflexivity. }
+  unfold f_declared. simpl. rewrite Hx. unfold f_store. simpl.
+  apply IH. intros w Hw. rewrite set_assoc_names. apply Hd. now right.
+Qed.
+
+Lemma tuple_exec : forall in_loop st xs rs,
+  Inv st -> tuple_ok (map fst (f_glob st)) xs rs = true ->
+  exists ys, rhs_vars rs = Some ys /\
+    f_exec in_loop st (LTuple xs rs) =
+      Safe (mkf (f_heap st) (tstore (f_glob st) xs (map (getd null_list (f_glob st)) ys)) [], []) /\
+    Permutation (map snd (tstore (f_glob st) xs (map (getd null_list (f_glob st)) ys))) (map snd (f_glob st)) /\
+    length xs = length ys /\ NoDup xs /\ NoDup ys /\ incl ys xs /\ incl xs (map fst (f_glob st)).
+Proof.
+  intros in_loop st xs rs HI U. pose proof HI as (Hloc & (Hn & _) & _).
+  destruct (tuple_ok_spec _ _ _ U) as (ys & R & L & NDx & NDy & I1 & I2).
+  exists ys. split; auto. split; [|split; [|repeat split; auto]].
+  - unfold f_exec. rewrite (f_rhs_vars st (f_heap st) rs ys R). cbn [rbind].
+    rewrite Hloc. rewrite f_tuple_store_glob.
+    + do 3 f_equal. f_equal. apply map_ext. intros y. now apply lookup_getd.
+    + intros x Hx. apply existsb_eqb_In. now apply I2.
+  - apply tstore_perm; auto.
+Qed.
+
+Lemma tuple_inv : forall in_loop st xs rs,
+  Inv st -> tuple_ok (map fst (f_glob st)) xs rs = true -> post_ok st (f_exec in_loop st (LTuple xs rs)).
+Proof.
+  intros in_loop st xs rs HI U. destruct (tuple_exec in_loop st xs rs HI U) as (ys & _ & E & P & _).
+  rewrite E. pose proof HI as (Hloc & Hw & Hb & Hc). simpl.
+  assert (N : map fst (tstore (f_glob st) xs (map (getd null_list (f_glob st)) ys)) = map fst (f_glob st))
+    by apply tstore_names.
+  destruct (perm_wf_env (f_heap st) _ _ N P Hw) as (Hw' & Lo & Ls).
+  split; auto. unfold Inv. simpl. split; [reflexivity|]. split; [exact Hw'|]. split; congruence.
+Qed.
+
 Lemma exec_inv : forall in_loop st s,
   Inv st -> use_ok (map fst (f_glob st)) s = true -> post_ok st (f_exec in_loop st s).
 Proof.
   intros in_loop st s HI U. pose proof HI as (Hloc & _).
-  destruct s; simpl in U; try discriminate.
+  destruct s; cbn [use_ok] in U; try discriminate.
   - (* LAssignVar x x *)
     apply andb_true_iff in U. destruct U as [E U]. apply Z.eqb_eq in E. subst y.
     destruct (Inv_var st x HI U) as (l & cs & Hx & Hlk & Hr).
@@ -291,6 +374,24 @@ Proof.
     destruct (Inv_var st x HI U) as (l & cs & Hx & Hlk & Hr).
     unfold f_exec. rewrite Hlk, (get_spec _ l cs i Hr).
     destruct (py_index (length cs) i); simpl; auto.
+  - (* LAppendRef *)
+    apply andb_true_iff in U. destruct U as [Ux Uy].
+    destruct (Inv_var st x HI Ux) as (l & cs & Hx & Hlk & Hr).
+    destruct (Inv_var st y HI Uy) as (s & cs2 & Hy & Hlky & Hrs).
+    pose proof (append_ref_ok _ l cs s cs2 i Hr Hrs) as A.
+    unfold f_exec. rewrite Hlk, Hlky.
+    destruct (py_index (length cs2) i) as [k|].
+    + destruct A as (h' & l' & E & UO). rewrite E. simpl. split; [eapply store_inv; eauto | now apply store_names].
+    + rewrite A. simpl. auto.
+  - (* LRemoveRef *)
+    apply andb_true_iff in U. destruct U as [Ux Uy].
+    destruct (Inv_var st x HI Ux) as (l & cs & Hx & Hlk & Hr).
+    destruct (Inv_var st y HI Uy) as (s & cs2 & Hy & Hlky & Hrs).
+    unfold f_exec. rewrite Hlk, Hlky.
+    destruct (remove_ref_ok _ l cs s cs2 i Hr Hrs) as [(h' & l' & cs' & E & UO & _)|(E & _)]; rewrite E; simpl; auto.
+    split; [eapply store_inv; eauto | now apply store_names].
+  - (* LTuple *)
+    now apply tuple_inv.
 Qed.
 
 Lemma block_inv : forall in_loop ss st,
@@ -457,13 +558,92 @@ Proof.
           unfold optl; [rewrite Eb | rewrite El]; simpl; auto.
 Qed.
 
+
+(* ------------------------------------------------------------------ tuple assignment: the CPython side *)
+Lemma refs_vals : forall e, refs e = map snd e.
+Proof. induction e as [|[x o] r IH]; simpl; auto; unfold refs in *; simpl in *; now rewrite IH. Qed.
+
+Lemma assoc_names_in : forall (A : Type) x (e : env A) a, assoc x e = Some a -> In x (map fst e).
+Proof. intros A x e a H. apply assoc_In in H. now apply (in_map fst) in H. Qed.
+
+Lemma p_rhs_vars : forall pst objs rs ys, p_loc pst = [] -> rhs_vars rs = Some ys ->
+  (forall y, In y ys -> In y (map fst (p_glob pst))) ->
+  p_rhs pst objs rs = POk (objs, map (getd 0 (p_glob pst)) ys).
+Proof.
+  intros pst objs. induction rs as [|[y|items] r IH]; intros ys Hl H Hin; simpl in *; try discriminate.
+  - now injection H as <-.
+  - destruct (rhs_vars r) as [ys'|]; try discriminate. injection H as <-.
+    assert (Hy : p_ref pst y = POk (getd 0 (p_glob pst) y)).
+    { unfold p_ref, getd. rewrite Hl. simpl.
+      destruct (assoc y (p_glob pst)) eqn:E; auto.
+      exfalso. apply (assoc_in_names nat (p_glob pst) y); auto. apply Hin. now left. }
+    rewrite Hy. cbn [pbind]. rewrite (IH ys' Hl eq_refl). { reflexivity. }
+    intros w Hw. apply Hin. now right.
+Qed.
+
+Lemma p_tuple_bind_glob : forall in_loop xs os objs g,
+  (forall x, In x xs -> existsb (Z.eqb x) (map fst g) = true) ->
+  p_tuple_bind in_loop (mkp objs g []) xs os = mkp objs (tstore g xs os) [].
+Proof.
+  intros in_loop. induction xs as [|x xr IH]; intros [|o orr] objs g Hd; simpl; auto.
+  assert (Hx : has x g = true).
+  { unfold has. destruct (proj1 (assoc_names _ x g) (Hd x (or_introl eq_refl))) as (a & ->). reflexivity. }
+  unfold p_bind. cbn [p_loc p_glob p_objs]. change (has x (@nil (name * nat))) with false. cbv iota. rewrite Hx.
+  apply IH. intros w Hw. rewrite set_assoc_names. apply Hd. now right.
+Qed.
+
+Lemma tsub_in_names : forall xs ys ns z, length xs = length ys -> incl ys xs -> incl xs ns ->
+  In z ns -> In (tsub xs ys z) ns.
+Proof.
+  intros xs ys ns z L I I2 Hz. destruct (in_dec Z.eq_dec z xs) as [Hx|Hx].
+  - apply I2, I. now apply tsub_in.
+  - now rewrite tsub_notin.
+Qed.
+
+Lemma tuple_sim : forall in_loop st pst xs rs pst' out,
+  Inv st -> Sim pst st -> tuple_ok (map fst (f_glob st)) xs rs = true ->
+  p_exec in_loop pst (LTuple xs rs) = POk (pst', out) ->
+  exists st', f_exec in_loop st (LTuple xs rs) = Safe (st', out) /\ Sim pst' st'.
+Proof.
+  intros in_loop st pst xs rs pst' out HI HS U P.
+  destruct (tuple_exec in_loop st xs rs HI U) as (ys & R & E & _ & L & NDx & NDy & I1 & I2).
+  pose proof HI as (Hloc & (Hn & Hown & Hall) & _). pose proof HS as (Pl & Pn & Pnm & Pb & Hv).
+  assert (Pnd : NoDup (map fst (p_glob pst))) by now rewrite Pnm.
+  assert (I2p : incl xs (map fst (p_glob pst))) by now rewrite Pnm.
+  cbn [p_exec] in P.
+  rewrite (p_rhs_vars pst (p_objs pst) rs ys Pl R) in P by (intros y Hy; apply I2p, I1, Hy).
+  cbn [pbind] in P. rewrite map_length, <- L, Nat.eqb_refl in P.
+  rewrite Pl in P. rewrite p_tuple_bind_glob in P by (intros x Hx; apply existsb_eqb_In; now apply I2p).
+  injection P as <- <-. rewrite E. eexists. split; [reflexivity|].
+  set (pg := p_glob pst) in *. set (g := f_glob st) in *.
+  assert (PP : Permutation (map snd (tstore pg xs (map (getd 0 pg) ys))) (map snd pg))
+    by (apply tstore_perm; auto).
+  unfold Sim. simpl. split; [reflexivity|]. split; [|split; [|split]].
+  - rewrite refs_vals. eapply Permutation_NoDup; [apply Permutation_sym; exact PP|]. now rewrite <- refs_vals.
+  - now rewrite !tstore_names.
+  - intros o Ho. apply Pb. rewrite refs_vals in *. eapply Permutation_in; eauto.
+  - intros x o Hx.
+    assert (Hin : In x (map fst pg)).
+    { apply assoc_names_in in Hx. now rewrite tstore_names in Hx. }
+    rewrite tstore_perm_assoc in Hx by auto. injection Hx as Hx.
+    assert (Hs : In (tsub xs ys x) (map fst pg)) by (apply tsub_in_names; auto).
+    assert (Ha : assoc (tsub xs ys x) pg = Some o).
+    { unfold getd in Hx. destruct (assoc (tsub xs ys x) pg) eqn:Ea; [now subst|].
+      exfalso. now apply (assoc_in_names nat pg (tsub xs ys x)). }
+    destruct (Hv _ _ Ha) as (Ho & l & Fl & Rl). split; auto.
+    exists l. split; auto.
+    rewrite tstore_perm_assoc; auto.
+    + unfold getd. fold g. now rewrite Fl.
+    + unfold g, pg in *. now rewrite <- Pnm.
+Qed.
+
 Lemma exec_sim : forall in_loop st pst s pst' out,
   Inv st -> Sim pst st -> use_ok (map fst (f_glob st)) s = true ->
   p_exec in_loop pst s = POk (pst', out) ->
   exists st', f_exec in_loop st s = Safe (st', out) /\ Sim pst' st'.
 Proof.
   intros in_loop st pst s pst' out HI HS U P. pose proof HI as (Hloc & _). pose proof HS as (Pl & _).
-  destruct s; simpl in U; try discriminate; cbn [p_exec] in P.
+  destruct s; cbn [use_ok] in U; try discriminate; [cbn [p_exec] in P ..| |].
   - (* LAssignVar x x *)
     apply andb_true_iff in U. destruct U as [E U]. apply Z.eqb_eq in E. subst y.
     destruct (p_ref pst x) as [o|] eqn:R; simpl in P; try discriminate.
@@ -505,6 +685,28 @@ Proof.
     unfold f_exec. rewrite Hlk, (get_spec _ l _ i Hr).
     destruct (py_index (length (p_obj pst o)) i); try discriminate. injection P as <- <-.
     simpl. eauto.
+  - (* LAppendRef *)
+    destruct (p_ref pst x) as [o|] eqn:R; simpl in P; try discriminate.
+    destruct (p_ref pst y) as [oy|] eqn:Ry; simpl in P; try discriminate.
+    destruct (sim_var pst st x o HI HS R) as (Px & Ho & l & Fx & Hlk & Hr).
+    destruct (sim_var pst st y oy HI HS Ry) as (Py & Hoy & s & Fy & Hlky & Hrs).
+    destruct (py_index (length (p_obj pst oy)) i) as [k|] eqn:PI; try discriminate. injection P as <- <-.
+    pose proof (append_ref_ok _ l _ s _ i Hr Hrs) as A. rewrite PI in A. destruct A as (h' & l' & E & UO).
+    unfold f_exec. rewrite Hlk, Hlky, E. simpl. eexists. split; [reflexivity|]. eapply sim_store; eauto.
+  - (* LRemoveRef *)
+    cbn [p_exec] in P.
+    destruct (p_ref pst x) as [o|] eqn:R; simpl in P; try discriminate.
+    destruct (p_ref pst y) as [oy|] eqn:Ry; simpl in P; try discriminate.
+    destruct (sim_var pst st x o HI HS R) as (Px & Ho & l & Fx & Hlk & Hr).
+    destruct (sim_var pst st y oy HI HS Ry) as (Py & Hoy & s & Fy & Hlky & Hrs).
+    destruct (py_index (length (p_obj pst oy)) i) as [k|] eqn:PI; try discriminate.
+    destruct (remove_first (nth k (p_obj pst oy) 0%Z) (p_obj pst o)) as [cs'|] eqn:RF; try discriminate.
+    injection P as <- <-.
+    destruct (remove_ref_ok _ l _ s _ i Hr Hrs) as [(h' & l' & cs'' & E & UO & Hcs)|(E & Hn)]; [|congruence].
+    specialize (Hcs k PI). rewrite RF in Hcs. subst cs''.
+    unfold f_exec. rewrite Hlk, Hlky, E. simpl. eexists. split; [reflexivity|]. eapply sim_store; eauto.
+  - (* LTuple *)
+    eapply tuple_sim; eauto.
 Qed.
 
 Lemma refs_app : forall a b, refs (a ++ b) = refs a ++ refs b.
